@@ -7,8 +7,10 @@ rejects (TypeError: no consistent MRO) end the path immediately with the cover t
 Configuration: owned-type subset of entity 1 (one flag per class), at most one component on entity 2,
 the query type.  The same for Processor subclasses below a fresh abstract-free Processor root.
 
-Oracle: issubclass on the exact types, through the public API only.
+Oracle: real inheritance (T in type(obj).__mro__; equal to issubclass except for virtual subclasses of ABCs,
+which no query may match), through the public API only.
 """
+import abc
 import gc
 
 import desper
@@ -100,12 +102,39 @@ def first_queries(sp, qtypes):
     return pre
 
 
+def is_subtype(t, T):
+    """"type is T or a direct or indirect subclass of T": real inheritance (the MRO), not what an ABC's
+    register()/__subclasshook__ makes issubclass() claim."""
+    return T in t.__mro__
+
+
+def virtual_abcs(sp, classes):
+    """Two ABC query types outside the hierarchy: `Reg` with one class registered as a virtual subclass,
+    `Hook` whose __subclasshook__ accepts every class that has a `marker` attribute in its MRO (the
+    collections.abc.Sized pattern).  The same symbolically chosen class gets both."""
+    k = sp.choose(len(classes), 'virtual-class')
+    chosen = classes[k]
+
+    def hook(cls, C):
+        if any('marker' in B.__dict__ for B in C.__mro__):
+            return True
+        return NotImplemented
+
+    Reg = abc.ABCMeta('Reg', (), {})
+    Hook = abc.ABCMeta('Hook', (), {'__subclasshook__': classmethod(hook)})
+    chosen.marker = True
+    Reg.register(chosen)
+    sp.note('%s (and its subclasses) is a virtual subclass of the ABCs Reg (register) and Hook (__subclasshook__)'
+            % chosen.__name__)
+    return [Reg, Hook]
+
+
 # ------------------------------------------------------------------------------------------ components
 def oracle_components(sp, w, ents, types, when):
     """ents: entity -> {exact type: component}."""
     for T in types:
         got = w.get(T)
-        exp = [(e, c) for e, comps in ents.items() for t, c in comps.items() if issubclass(t, T)]
+        exp = [(e, c) for e, comps in ents.items() for t, c in comps.items() if is_subtype(t, T)]
         keys = [(e, id(c)) for e, c in got]
         sp.check(all(any(e == e2 and c is c2 for e2, c2 in exp) for e, c in got), 'get-only-matches',
                  '%s: get(%s) lists a pair that is not an attached component of a subtype' % (when, T.__name__))
@@ -115,7 +144,7 @@ def oracle_components(sp, w, ents, types, when):
         sp.check(sorted(keys) == sorted((e, id(c)) for e, c in exp), 'get-all-matches',
                  '%s: get(%s) has %d pairs, %d components match' % (when, T.__name__, len(got), len(exp)))
         for e, comps in ents.items():
-            matches = [c for t, c in comps.items() if issubclass(t, T)]
+            matches = [c for t, c in comps.items() if is_subtype(t, T)]
             has = w.has_component(e, T)
             sp.check(has is bool(matches), 'has_component',
                      '%s: has_component(%r, %s) is %r, %d attached components match' % (
@@ -145,7 +174,7 @@ FLAVOURS = [
 ]
 
 
-def h_components(sp, n=4, query_root=False, second='any', flavours=1, late=False):
+def h_components(sp, n=4, query_root=False, second='any', flavours=1, late=False, virtual=False):
     _tick()
     fname, fns = FLAVOURS[sp.choose(flavours, 'flavour')] if flavours > 1 else FLAVOURS[0]
     if fname != 'plain':
@@ -175,6 +204,8 @@ def h_components(sp, n=4, query_root=False, second='any', flavours=1, late=False
         ents[2][classes[k]] = c
         sp.note('add_component(2, %s())' % classes[k].__name__)
     qtypes = classes + [root] if query_root else classes
+    if virtual:
+        qtypes = qtypes + virtual_abcs(sp, classes)
     if late:
         # phase 2: a class defined (and instantiated) after the hierarchy was already queried
         pre = first_queries(sp, qtypes)
@@ -205,7 +236,9 @@ def h_components(sp, n=4, query_root=False, second='any', flavours=1, late=False
     except Exception as ex:     # noqa
         sp.fail('op-raises', 'a query by %s raised %r' % (T.__name__, ex))
     comps = ents[1]
-    matches = [c for t, c in comps.items() if issubclass(t, T)]
+    matches = [c for t, c in comps.items() if is_subtype(t, T)]
+    if any(issubclass(t, T) and not is_subtype(t, T) for t in comps):
+        sp.cover('virtual-subclass-queried')
     if len(matches) >= 2:
         sp.cover('several-match')
     if len(matches) >= 1 and T not in comps:
@@ -343,6 +376,7 @@ def h_processors(sp, n=4, query_root=False, flavours=1, late=False):
 _TAGS = ['multiple-inheritance', 'several-routes', 'diamond', 'redundant-base', 'several-match',
          'only-subtypes-match', 'exact-among-several', 'removed', 'mro-rejected']
 _UNUSUAL = ['unusual-falsy', 'unusual-empty', 'unusual-all-equal', 'removed']
+_VIRTUAL = ['virtual-subclass-queried', 'removed', 'only-subtypes-match', 'multiple-inheritance']
 _LATE = ['late-class', 'late-two-bases', 'late-under-queried', 'late-mro-rejected', 'multiple-inheritance']
 
 HARNESSES = {
@@ -357,6 +391,7 @@ TIERS = {
         ('processors', dict(n=4)),
         ('processors', dict(n=3, flavours=4), dict(required=_UNUSUAL)),
         ('components', dict(n=3, late=True), dict(required=_LATE)),
+        ('components', dict(n=3, virtual=True), dict(required=_VIRTUAL)),
         ('processors', dict(n=3, late=True), dict(required=_LATE)),
     ],
     'thorough': [
@@ -369,6 +404,7 @@ TIERS = {
         ('components', dict(n=4, late=True, second='last'), dict(required=_LATE)),
         ('components', dict(n=3, late=True, query_root=True, flavours=4), dict(required=_LATE + _UNUSUAL[:3])),
         ('processors', dict(n=4, late=True), dict(required=_LATE)),
+        ('components', dict(n=4, virtual=True, second='last'), dict(required=_VIRTUAL)),
     ],
 }
 BUDGET_S = {'quick': 120, 'thorough': 1500}
@@ -389,11 +425,13 @@ BOUNDS = {
     'quick': 'n=4 classes below a fresh root: all 64 DAGs x 2 base orders, 16 owned subsets on entity 1, '
              '0-1 component on entity 2, 4 query types; n=3 with falsy / empty / all-equal instances; the same for Processor subclasses (16 registered subsets); '
              'n=3 hierarchies + one class defined after a first round of queries (by one type or by all), 9 base choices, '
-             'then every query by every type including the late class',
+             'then every query by every type including the late class; n=3 hierarchies + two ABC query types (register / '
+             '__subclasshook__) that claim a symbolically chosen class as virtual subclass',
     'thorough': 'n=5 classes: all 1024 DAGs x 2 base orders, 32 subsets, entity 2 empty or owning the last class, '
                 '5 query types; '
                 'n=4 additionally queried by the root class; n=4 with unusual instances; the same for Processor '
-                'subclasses; late-class phase on n=4 (16 base choices) and on n=3 with root query and unusual instances',
+                'subclasses; late-class phase on n=4 (16 base choices) and on n=3 with root query and unusual instances; '
+                'virtual-subclass ABC query types on n=4',
 }
 ASSUMPTIONS = [
     'classes are created with type() and stay alive for the whole path; __subclasses__() is not overridden',
@@ -406,12 +444,15 @@ ASSUMPTIONS = [
     'have already walked the hierarchy; every query afterwards must see it ("for every hierarchy" is read as the '
     'hierarchy at the time of the query)',
     'when several objects match and none has exactly the queried type, any matching object is accepted',
+    '"subclass" means real inheritance: a class that an ABC accepts through register() or __subclasshook__ is not '
+    'a subclass in the sense of the statement, so a query by such an ABC matches nothing - and all six queries '
+    'must agree on that',
     'components and processors are plain (no event handlers; callbacks are C02/C07)',
     'processors are added with their class default priority 0, so `processors` keeps insertion order; only the '
     'membership and the relative order of the survivors are checked here (ordering is C07)',
 ]
 OUTSIDE = ['hierarchies with more than 5 classes below the root', 'base orders other than ascending/descending',
-           'virtual subclasses registered with ABCMeta.register (issubclass true, not in __subclasses__())',
+           'virtual subclasses among Processor classes (components only)',
            'classes collected while a world still refers to them']
 
 TECHNIQUE = 'symbolic enumeration of class DAGs (adjacency bits as solver variables) executed on the real World, issubclass oracle'
